@@ -690,6 +690,7 @@ static int _fetch_and_process_packet(OggVorbis_File *vf,
                                      int readp,
                                      int spanp){
   ogg_page og;
+  int halfrate=0;
 
   /* handle one packet.  Try to fetch it from current stream state */
   /* extract packets from page */
@@ -816,6 +817,7 @@ static int _fetch_and_process_packet(OggVorbis_File *vf,
               _decode_clear(vf);
 
               if(!vf->seekable){
+                halfrate=vorbis_synthesis_halfrate_p(vf->vi);
                 vorbis_info_clear(vf->vi);
                 vorbis_comment_clear(vf->vc);
               }
@@ -872,6 +874,10 @@ static int _fetch_and_process_packet(OggVorbis_File *vf,
 
           int ret=_fetch_headers(vf,vf->vi,vf->vc,NULL,NULL,&og);
           if(ret)return(ret);
+          /* the info struct was rebuilt from the new headers; carry the
+             application's half-rate setting over to the new link (a link
+             that cannot do it stays at full rate) */
+          if(halfrate)vorbis_synthesis_halfrate(vf->vi,1);
           vf->current_serialno=vf->os.serialno;
           vf->current_link++;
           link=0;
